@@ -40,6 +40,7 @@ type ReplayCase struct {
 type FreeResult struct {
 	Scenario   string `json:"scenario"`
 	Iterations int    `json:"iterations"`
+	Goroutines int    `json:"goroutines"`
 	Panics     int    `json:"panics"`
 }
 
@@ -65,6 +66,7 @@ func WorkerMain(scenarios []Scenario) {
 	replay := fs.String("replay", "", "replay file")
 	free := fs.String("free", "", "run the scenario bodies free (auxiliary race pass)")
 	iters := fs.Int("iters", 200, "iterations of the free pass")
+	copies := fs.Int("copies", 1, "free pass: real goroutines per thread body (2-3 bodies x copies run together)")
 	procs := fs.Int("procs", 1, "GOMAXPROCS for explorations")
 	_ = fs.Parse(os.Args[1:])
 	enc := json.NewEncoder(os.Stdout)
@@ -104,7 +106,7 @@ func WorkerMain(scenarios []Scenario) {
 		names := strings.Split(*free, ",")
 		var out []FreeResult
 		for _, n := range names {
-			out = append(out, runFree(find(n), *iters))
+			out = append(out, runFree(find(n), *iters, *copies))
 		}
 		_ = enc.Encode(out)
 	case *replay != "":
@@ -143,15 +145,15 @@ func WorkerMain(scenarios []Scenario) {
 // runFree runs the thread bodies of a scenario as real goroutines, released together, iters
 // times. No scheduler, no oracle: the Go race detector (if the binary was built with -race)
 // is the only observer. Non-deciding by design.
-func runFree(sc *Scenario, iters int) FreeResult {
-	res := FreeResult{Scenario: sc.Name, Iterations: iters}
+func runFree(sc *Scenario, iters, copies int) FreeResult {
+	res := FreeResult{Scenario: sc.Name, Iterations: iters, Goroutines: len(sc.Threads) * copies}
 	var pmu sync.Mutex
 	for it := 0; it < iters; it++ {
 		env := sc.Setup()
 		var wg sync.WaitGroup
 		gate := make(chan struct{})
-		for _, f := range sc.Threads {
-			f := f
+		for k := 0; k < len(sc.Threads)*copies; k++ {
+			f := sc.Threads[k%len(sc.Threads)]
 			wg.Add(1)
 			go func() {
 				defer wg.Done()
